@@ -95,6 +95,20 @@ def directed_substitutions(spans, enc, msg, hex_bitmap=False, all_values=False, 
                 yield [sub(off, v, cls)]
 
 
+PDS_TAG_TOKENS = ["    ", " \n  ", "\t\t\t\t", "\r\n  ", "  \x0b ", "0000", "9999", "abcd", "-001", "+001", "1 23", "\x00\x00\x00\x00"]
+
+
+def pds_tag_faults(spans, enc):
+    """each PDS tag (4 characters) rewritten as a whole: white space of several kinds, non-digits, signs"""
+    for el in spans["elems"]:
+        for s_ in (el.get("pds") or [])[:6]:
+            a, b = s_["tag"]
+            for tok in PDS_TAG_TOKENS:
+                bs = enc_text(tok, enc)
+                if len(bs) == 4:
+                    yield [rep(a, 4, bs, "pds_tag_token")]
+
+
 def numeral_faults(spans, enc):
     """each DE length prefix and each PDS sub-length rewritten to every curated odd numeral"""
     for el in spans["elems"]:
